@@ -26,9 +26,9 @@ RULE = ("purity: random documents (N/U/A, hostile fixed ones, hashes sharing key
 ASSUMPTIONS = ["a fingerprint covers container identity, ordered children, scalar kind/value, anchors and merge lists",
                "a null-valued prefix node and negative out-of-range indexes are outside 'straight path with a missing tail'",
                "padding *values* are not judged, padding *count* is"]
-REACH = [("yamlpath/processor.py", 1511, 1700, "collector addition/subtraction/intersection"),
-         ("yamlpath/processor.py", 2351, 2640, "Processor._get_optional_nodes"),
-         ("yamlpath/common/nodes.py", 404, 515, "wrap_type / build_next_node / append_list_element")]
+REACH = [("yamlpath/processor.py", "_collector_addition,_collector_subtraction,_collector_intersection,_get_nodes_by_collector", "collector addition/subtraction/intersection"),
+         ("yamlpath/processor.py", "_get_optional_nodes", "Processor._get_optional_nodes"),
+         ("yamlpath/common/nodes.py", "wrap_type,build_next_node,append_list_element", "wrap_type / build_next_node / append_list_element")]
 SIZES = {"quick": dict(reads=120000, creates=15000), "thorough": dict(reads=3000000, creates=300000)}
 REQUIRED_COUNTERS = ["purity_checked", "collector_reads", "create_steps", "optional_existing_reads"]
 
